@@ -30,7 +30,7 @@ def jobs(tier):
     for sh in b["shapes"]:
         for leaf in b["leaves"]:
             out.append({"name": "%s/%s" % (sh, leaf), "shape": sh, "leaf": leaf, "depth": b["depth"], "tier": tier})
-    for sh in ("nested+late", "cfglist+late", "nested+env"):       # schema grown after first use / empty bound variables
+    for sh in ("nested+late", "cfglist+late", "nested+env", "nested+off"):       # schema grown after first use / empty bound variables
         for leaf in ["int09", "str-norm", "list-int", "dict-typed", "bool"]:
             out.append({"name": "%s/%s" % (sh, leaf), "shape": sh, "leaf": leaf, "depth": b["depth"], "tier": tier})
     if tier != "thorough":
